@@ -192,7 +192,7 @@ def run_shard(shard, rec, tier, seed):
         # whole generated charts: every instrument (Drums, GHL, ...), realistic and hostile note/phrase/tempo structure together
         for i in range(shard["count"]):
             rng = harness.rng_for(seed, ID, shard["name"], i)
-            case = gen.gen_chart(rng, "hostile" if i % 2 else "realistic", n_tracks=rng.choice([1, 2, 4]), n_groups=rng.choice([10, 60, 250]),
+            case = gen.chart_or_interactions(rng, i, "hostile" if i % 2 else "realistic", rec, n_tracks=rng.choice([1, 2, 4]), n_groups=rng.choice([10, 60, 250]),
                                  n_globals=0, n_tempos=rng.choice([1, 3, 10]))
             out, ob, d = mcheck.judge(rec, ("C05",), case, extra=sp_list)
             if d is not None and not mcheck.select(d, ("C05",), sp_list):
